@@ -167,3 +167,65 @@ PROPS["C19"] = {
     "level_note": "only clearly malformed values are required to be rejected; a leading '+' on N may be accepted or rejected",
     "assumptions": [],
 }
+
+PROPS["C09"] = {
+    "title": "A truncated result stream decodes to a clean prefix",
+    "units": [{"name": "truncation", "pkg": "lib", "run": "^TestC09"}],
+    "rule": "rapid draws streams of 1..25 heterogeneous results (C07 generator, one in eight with bodies up to 100 KiB), "
+            "a recording writer notes the byte offset after each Encode call; gob and JSON streams are cut at EVERY byte "
+            "offset (streams above 16 KiB: every offset within 64 bytes of a record boundary plus 600 drawn interior "
+            "offsets), CSV streams at every record boundary. Non-trivial = stream with >= 3 records and >= 1 cut strictly "
+            "inside a record that is not the first; distinct = distinct stream. counters.prefixes_decoded = number of "
+            "truncated streams decoded.",
+    "explanation": "Oracle: decoding stream[:c] yields exactly the records whose end offset <= c, equal (reflect walk) to "
+                   "the originals, then a non-nil error, io.EOF when c is a point between Encode calls; never a record "
+                   "that was not written or a partly filled one.",
+    "technique": "property-based streams x exhaustive enumeration of cut points (crash-point enumeration over generated inputs, rapid)",
+    "level_text": "generated streams with exhaustive cut-point enumeration per stream (every byte offset for gob/JSON up "
+                  "to 16 KiB, sampled beyond; every record boundary for CSV); cannot prove absence over all streams",
+    "level_note": "only successful decodes are inspected; what a failed Decode left in its argument is not judged",
+    "assumptions": [],
+}
+
+PROPS["C08"] = {
+    "title": "Format auto-detection and transcoding never lose, duplicate or alter results",
+    "units": [{"name": "detect", "pkg": "lib", "run": "^TestC08"},
+              {"name": "encodecmd", "pkg": "main", "run": "^TestC08"}],
+    "rule": "rapid draws streams of 1..21 heterogeneous results whose first record differs from the rest (one in ten "
+            "with a first record of 64..300 KiB, larger than every I/O buffer) in each encoding, read through a chunking "
+            "reader (1 byte, primes, 4095/4096/4097, all at once, occasional (0,nil) reads); a negative class (empty, "
+            "random bytes, text lines with 1..14 fields, valid streams whose first record is truncated / bit-flipped / "
+            "shortened / prefixed by garbage); and transcoding chains of length 1..4 over {gob,csv,json} run through "
+            "the in-process encode command on temp files. Non-trivial detect case = total size > 8 KiB with a chunk "
+            "smaller than the mean record; non-trivial chain = length >= 2 over >= 2 formats; distinct = distinct case.",
+    "explanation": "Oracle: DecoderFor returns non-nil and yields exactly the encoded sequence then io.EOF; differential: "
+                   "DecoderFor(x) != nil <=> some explicit decoder reads a first record of x, and its output agrees with "
+                   "an explicit decoder; after any encode chain the final file decodes (explicit decoder of the last "
+                   "format) to the original sequence.",
+    "technique": "property-based round trip through chunked readers, differential against explicit decoders, metamorphic transcoding chains (rapid)",
+    "level_text": "generated-input search over streams, chunkings and transcoding chains against round-trip and "
+                  "differential oracles; cannot prove absence",
+    "level_note": "the encode command is called in-process (encode(files,to,output)) on files in a per-case temp directory",
+    "assumptions": [],
+}
+
+PROPS["C13"] = {
+    "title": "Reports over several files equal the report over their union",
+    "units": [{"name": "roundrobin", "pkg": "lib", "run": "^TestC13"},
+              {"name": "commands", "pkg": "main", "run": "^TestC13"}],
+    "rule": "rapid draws a result sequence (C07 generator, C06-consistent codes/errors, attack name carrying source file "
+            "and index) split into 1..6 inputs of unequal lengths (>= 1 record; neighbouring inputs of equal length; "
+            "'empty after the first record'), each with a drawn encoding, decoders explicit or auto-detected; the "
+            "in-process report (text, json, json+buckets, hist, hdrplot) and encode commands run on the split and on "
+            "one file holding the union. Non-trivial = >= 3 inputs, >= 2 encodings, lengths not all equal; distinct = "
+            "distinct case.",
+    "explanation": "Oracle: the combined decoder yields every record of every input exactly once in each input's own "
+                   "order (cursor per input) and io.EOF only after all are exhausted, again on later calls; report over "
+                   "the split == report over the union for all exact metrics (t-digest percentile estimates masked); "
+                   "encode over the split decodes to the same multiset as the union.",
+    "technique": "model-based property test of the combined decoder + metamorphic split/union relation on the commands (rapid)",
+    "level_text": "generated-history/configuration search over splits, encodings and report types against a cursor model "
+                  "and a split-vs-union metamorphic oracle; cannot prove absence",
+    "level_note": "commands are called in-process on files in a per-case temp directory; the four percentile estimates are excluded from the union comparison",
+    "assumptions": ["every input holds at least one record (an empty file has no detectable encoding)"],
+}
